@@ -19,6 +19,9 @@ GENERIC_METHODS = {'append', 'extend', 'get', 'items', 'keys', 'values', 'format
                    'index_select', 'clone', 'squeeze', 'begin', 'cursor', 'put', 'load_state_dict', 'parameters', 'register_buffer'}
 
 
+FIELD_MUTATORS = ('append', 'extend', 'insert', 'add', 'update', 'setdefault', 'pop', 'remove', 'clear', 'appendleft', 'popleft')
+
+
 class World:
     def __init__(self, repo, root_class):
         self.repo = repo
@@ -161,6 +164,27 @@ class World:
         return self.repo.find_method(cq, name)
 
 
+def alias_path(fi, e):
+    """Like self_path, but a local that is a plain alias of self.a.b (x = self.a.b) counts as that path."""
+    p = self_path(e)
+    if p is not None:
+        return p
+    parts = []
+    b = e
+    while isinstance(b, ast.Attribute):
+        parts.append(b.attr)
+        b = b.value
+    if isinstance(b, ast.Name) and b.id != 'self':
+        try:
+            r = fi.flow.resolve(b, b)
+        except AnalysisError:
+            return None
+        rp = self_path(r) if r is not b else None
+        if rp:
+            return tuple(rp) + tuple(reversed(parts))
+    return None
+
+
 def self_path(e):
     """('a', 'b') for self.a.b ; None otherwise."""
     parts = []
@@ -205,7 +229,24 @@ class ResetAnalysis:
                 continue
             recv = c.func.value
             name = c.func.attr
-            p = self_path(recv)
+            p = alias_path(fi, recv) if cq is not None else self_path(recv)
+            whole = self_path(c.func)
+            if whole and cq is not None and self.w.method(cq, name) is None:
+                # self.field(...) : the field holds a callable object
+                ks = {cq}
+                for f in whole:
+                    nxt = set()
+                    for k in ks:
+                        nxt |= self.w.types_of_field(k, f)
+                    ks = nxt
+                hit = False
+                for k in ks:
+                    m = self.w.method(k, '__call__')
+                    if m is not None:
+                        out.append((c, whole, m, k))
+                        hit = True
+                if hit:
+                    continue
             if p == ():
                 m = self.w.method(cq, name)
                 if m is not None:
@@ -264,6 +305,8 @@ class ResetAnalysis:
                             while isinstance(b, ast.Subscript):
                                 b = b.value
                             p = self_path(b)
+                            if p is None and b is not tt:
+                                p = alias_path(fi, b)      # x = self.f ; x[i] = v
                             if p and len(p) >= 1:
                                 owner = {cq}
                                 for f in p[:-1]:
@@ -273,6 +316,22 @@ class ResetAnalysis:
                                     owner = nxt
                                 for k in owner:
                                     self.page_stores.setdefault((self._decl(k, p[-1]), p[-1]), []).append((fi, s))
+            if cq is not None and fi.name != '__init__':
+                for c in ast.walk(fi.node):
+                    if isinstance(c, ast.Call) and isinstance(c.func, ast.Attribute) and c.func.attr in FIELD_MUTATORS:
+                        p = alias_path(fi, c.func.value)
+                        if p and len(p) >= 1:
+                            owner = {cq}
+                            for f in p[:-1]:
+                                nxt = set()
+                                for k in owner:
+                                    nxt |= self.w.types_of_field(k, f)
+                                owner = nxt
+                            # a method call on a long-lived repo object is analysed as a call, not as a container mutation
+                            if any(self.w.types_of_field(k, p[-1]) for k in owner):
+                                continue
+                            for k in owner:
+                                self.page_stores.setdefault((self._decl(k, p[-1]), p[-1]), []).append((fi, c))
             for c, p, m, k in self.callees(fi, cq):
                 if m.name == '__init__':
                     continue
@@ -380,6 +439,15 @@ class ResetAnalysis:
                         events.append((n.lineno, n.col_offset, 'load', n, p))
                 elif isinstance(n, ast.Call):
                     events.append((n.end_lineno, n.end_col_offset, 'call', n, None))
+        # receivers of pure container mutations (self.f.append(x)) accumulate, they do not read for a result
+        accum = set()
+        for e in exprs:
+            if e is None:
+                continue
+            for n in ast.walk(e):
+                if isinstance(n, ast.Call) and isinstance(n.func, ast.Attribute) and n.func.attr in FIELD_MUTATORS and n.func.attr not in ('pop', 'popleft', 'setdefault'):
+                    accum.add(id(n.func.value))
+        events = [ev for ev in events if not (ev[2] == 'load' and id(ev[3]) in accum)]
         events.sort(key=lambda ev: (ev[0], ev[1]))
         # attribute chains: only the longest path of a chain is a load of that field
         inner = set()
@@ -463,4 +531,94 @@ def rng_calls(node):
             nm = call_name(c) or ''
             if nm.startswith(RNG_PREFIXES) and not nm.startswith(RNG_SAFE) and not nm.endswith('.seed'):
                 out.append(c)
+    return out
+
+
+# ----------------------------------------------------------------------------
+# process-wide state (rule GLOBALS)
+# ----------------------------------------------------------------------------
+
+MUTATING = ('append', 'extend', 'insert', 'add', 'update', 'pop', 'remove', 'clear', 'setdefault', 'popitem', 'sort', 'reverse', '__setitem__')
+
+
+def global_writes(repo, fi):
+    """Writes to state that outlives the call and is not reached through `self`: module-level names (global statement,
+    in-place mutation), class attributes, mutable default arguments, function attributes."""
+    out = []
+    mod = fi.module
+    module_level = set()
+    for s in mod.tree.body:
+        if isinstance(s, ast.Assign):
+            for t in s.targets:
+                if isinstance(t, ast.Name):
+                    module_level.add(t.id)
+        elif isinstance(s, ast.AnnAssign) and isinstance(s.target, ast.Name):
+            module_level.add(s.target.id)
+    local = set(fi.params)
+    declared_global = set()
+    for n in walk_shallow(fi.node):
+        if isinstance(n, ast.Global):
+            declared_global |= set(n.names)
+        elif isinstance(n, ast.Name) and isinstance(n.ctx, ast.Store):
+            local.add(n.id)
+        elif isinstance(n, ast.comprehension):
+            for x in ast.walk(n.target):
+                if isinstance(x, ast.Name):
+                    local.add(x.id)
+    local -= declared_global
+    # mutable defaults
+    a = fi.node.args
+    names = [x.arg for x in a.posonlyargs + a.args]
+    defaults = dict(zip(names[len(names) - len(a.defaults):], a.defaults))
+    for k, d in zip(a.kwonlyargs, a.kw_defaults):
+        if d is not None:
+            defaults[k.arg] = d
+    mutable_defaults = {k for k, d in defaults.items() if isinstance(d, (ast.Dict, ast.List, ast.Set)) or
+                        (isinstance(d, ast.Call) and dotted(d.func) in ('dict', 'list', 'set', 'collections.defaultdict', 'defaultdict'))}
+
+    def base_name(e):
+        while isinstance(e, (ast.Subscript, ast.Attribute)):
+            e = e.value
+        return e.id if isinstance(e, ast.Name) else None
+
+    def is_shared(name):
+        if name in declared_global:
+            return 'module-level name (global)'
+        if name in mutable_defaults:
+            return 'mutable default argument'
+        if name not in local and name in module_level:
+            return 'module-level object'
+        q = repo.resolve_dotted(mod, name)
+        if name not in local and q in repo.classes:
+            return 'class attribute'
+        if name not in local and q in repo.funcs:
+            return 'function attribute'
+        return None
+    for n in walk_shallow(fi.node):
+        tgts = []
+        if isinstance(n, ast.Assign):
+            tgts = n.targets
+        elif isinstance(n, (ast.AugAssign, ast.AnnAssign)):
+            tgts = [n.target]
+        elif isinstance(n, ast.Delete):
+            tgts = n.targets
+        for t in tgts:
+            for tt in (t.elts if isinstance(t, (ast.Tuple, ast.List)) else [t]):
+                if isinstance(tt, ast.Name):
+                    if tt.id in declared_global:
+                        out.append((n, 'assignment to %s (%s)' % (tt.id, 'global')))
+                elif isinstance(tt, (ast.Subscript, ast.Attribute)):
+                    b = base_name(tt)
+                    if b and b not in ('self', 'cls'):
+                        why = is_shared(b)
+                        if why:
+                            out.append((n, 'store into %s (%s)' % (' '.join(src(tt).split()), why)))
+                    if isinstance(tt, ast.Attribute) and isinstance(tt.value, ast.Attribute) and tt.value.attr == '__class__':
+                        out.append((n, 'store into a class attribute through __class__'))
+        if isinstance(n, ast.Call) and isinstance(n.func, ast.Attribute) and n.func.attr in MUTATING:
+            b = base_name(n.func.value)
+            if b and b not in ('self', 'cls'):
+                why = is_shared(b)
+                if why:
+                    out.append((n, 'in-place %s() on %s (%s)' % (n.func.attr, ' '.join(src(n.func.value).split()), why)))
     return out
